@@ -12,7 +12,7 @@ from vt.gen import exprgen, jast, stmtgen, tplgen
 EXTENSIONS = ["jinja2.ext.loopcontrols"]
 
 
-def gen_case(rng, kinds=("expr", "stmt", "inherit", "incimp"), stmt_opts=None):
+def gen_case(rng, kinds=("expr", "stmt", "inherit", "incimp", "loop"), stmt_opts=None):
     k = kinds[rng.randrange(len(kinds))]
     if k == "expr":
         g = exprgen.Gen(rng)
@@ -32,6 +32,17 @@ def gen_case(rng, kinds=("expr", "stmt", "inherit", "incimp"), stmt_opts=None):
         g = tplgen.HGen(rng)
         templates, leaf, data, shape = g.hierarchy()
         return {"kind": k, "asts": templates, "main": leaf, "data": data, "globals": {}}
+    if k == "loop":
+        from vt.checks import c07
+
+        extra = c07.ATTRS + ["cycle", "changed", "depth"]
+        if rng.random() < 0.6:
+            sc = [tuple(rng.choice(extra) for _ in range(rng.randint(1, 3)))]
+        else:
+            sc = [tuple(rng.choice(c07.ATTRS) for _ in range(rng.randint(0, 2))) for _ in range(3)]
+        body = c07.loop_ast(sc, rng.choice([None, "odd", "gt"]), rng.random() < 0.5)
+        data = {"seq": [rng.randint(0, 9) for _ in range(rng.randint(0, 5))], "k": rng.randint(0, 9)}
+        return {"kind": k, "asts": {"main": body}, "main": "main", "data": data, "globals": {}}
     if k == "incimp":
         g = tplgen.IGen(rng)
         templates, data, glob = g.tset()
